@@ -320,7 +320,6 @@ func VerifC13_KeyFile() {
 	verifrt.Assert(same, "keyfile.value")
 }
 
-
 // C13 (handle half of opening): whatever fails while a file is opened - the open itself, Stat, a key
 // file that cannot be opened, read or decoded (in either location), the probing reads of the image -
 // an error returns no file and leaves no handle open, and success leaves exactly the returned one,
